@@ -80,10 +80,15 @@ def gen_lattice(max_bound, two_var_bound):
                     for seq in ((), (1,), (3, 0)):
                         T = t + n if t < 0 else t
                         script = {f'{T}:{k + 1}': [['A', TOKS(0.5)[i]]] for k, i in enumerate(seq) if i}
-                        yield {'nvars': 2, 'n': n, 't': t, 'script': script,
-                               'init': {'A': [10.0 * (i + 1) for i in range(n)], 'B': [0.5 * i for i in range(n)],
-                                        'X': [7.0 + i for i in range(n)]},
-                               'opts': {'min_iter': 0, 'max_iter': 3, 'tol': 0.5, 'offset': offset, 'failures': 'ignore'}}
+                        # (the copy concerns every endogenous variable, whichever of them are convergence-check variables)
+                        for check in (None, ['A'], ['B']):
+                            case = {'nvars': 2, 'n': n, 't': t, 'script': script,
+                                    'init': {'A': [10.0 * (i + 1) for i in range(n)], 'B': [0.5 * i for i in range(n)],
+                                             'X': [7.0 + i for i in range(n)]},
+                                    'opts': {'min_iter': 0, 'max_iter': 3, 'tol': 0.5, 'offset': offset, 'failures': 'ignore'}}
+                            if check is not None:
+                                case['check'] = check
+                            yield case
         # long runs: the variable moves for j passes and then stands still (iteration counts beyond the exhaustive bound)
         for j in (5, 9, 10, 11, 17, 30):
             script = {f'1:{k + 1}': [['A', ['move', 1.0]]] for k in range(j)}
